@@ -14,7 +14,7 @@ import (
 )
 
 // C14 — accepted queries are clean; validation is stable and decisive.
-// Engine E2: all strings of <=3 (quick) / <=5 (thorough) atoms over a 44-atom
+// Engine E2: all strings of <=3 (quick) / <=5 (thorough) atoms over a 46-atom
 // alphabet, run-length families around the byte-length boundaries, all limits
 // in [-300,300] plus corners.
 
@@ -25,6 +25,8 @@ var c14Atoms = []string{
 	".", "\"", "'", "\\", "0", "ab", "  ", "\ufffd", "\v", "\f",
 	// fullwidth twins of three metacharacters and of a letter (compatibility forms that a normalisation could fold)
 	"\uff04", "\uff5c", "\uff1b", "\uff41",
+	// a letter glued to a Unicode blank: with these, three atoms can put a mixed ASCII / Unicode run of blanks between letters
+	"a\u00a0", "\u3000b",
 }
 
 const c14Meta = "<>|&;$"
@@ -259,7 +261,7 @@ func c14Run(c *lib.Ctx) {
 func init() {
 	lib.Register(&lib.Check{
 		ID: "C14", Level: "model_checking",
-		Rule:      "every string of <=3 (quick) / <=5 (thorough) atoms over a 44-atom alphabet (ASCII, all Unicode spaces, controls, metacharacters and fullwidth twins of them, invalid UTF-8) plus run-length families atom^n·tail around 250/333/500/1000 bytes, each through ValidateQuery and re-validation; every limit in [-300,300] plus int corners (MaxInt/k, MinInt/k for k<=16 and all powers of two, each +-2) through ValidateLimit; non-trivial = rejected, or accepted with an output different from the input",
+		Rule:      "every string of <=3 (quick) / <=5 (thorough) atoms over a 46-atom alphabet (ASCII, all Unicode spaces, controls, metacharacters and fullwidth twins of them, invalid UTF-8) plus run-length families atom^n·tail around 250/333/500/1000 bytes, each through ValidateQuery and re-validation; every limit in [-300,300] plus int corners (MaxInt/k, MinInt/k for k<=16 and all powers of two, each +-2) through ValidateLimit; non-trivial = rejected, or accepted with an output different from the input",
 		Assume:    []string{"Unicode classes per Go's unicode tables", "acceptance of strings whose only content is invalid UTF-8 bytes is left undecided (either answer accepted)"},
 		QuickSecs: 60, ThorSecs: 600,
 		Run: c14Run,
